@@ -153,6 +153,7 @@ class Checker:
         self.result = None
         self.started = None
         self.finished = None
+        self.privileged_raised = []
 
     def violation(self, mechanism, msg):
         self.sess.violation('c16:' + mechanism, msg)
@@ -190,7 +191,10 @@ def build_for(case):
                         return await victims[number]
                     if act['fail']:
                         arena.log(name, 'raise')
-                        raise failure(name, number, flavour)
+                        exc = failure(name, number, flavour)
+                        if isinstance(exc, PRIVILEGED):
+                            checker.privileged_raised.append((name, time.now))
+                        raise exc
                     arena.log(name, 'done')
                     return act['value']
                 except GeneratorExit:
@@ -348,6 +352,18 @@ def check(sess, arena, checker, outcome, plan):
                                   'the caller was struck (%s) at %r inside %s; it left the call '
                                   'at %s' % (kind, when, spec['how'], left[0] if left else 'no time'))
                 break
+    # ---- a failure of a privileged type (SystemExit / AssertionError subclasses) is what the
+    # call ends with, whatever else strikes the caller in that time step ----
+    if checker.privileged_raised and spec['how'] == 'collect' and checker.finished is not None \
+            and not spec.get('in_cleanup'):
+        checker.stats['privileged_failures_followed'] = checker.stats.get(
+            'privileged_failures_followed', 0) + 1
+        if checker.result is None or checker.result[0] != 'privileged':
+            checker.violation('collect-failure-not-raised',
+                              'activity %s failed with a privileged exception at %r but '
+                              'collect() ended with %r (caller struck: %s)' % (
+                                  checker.privileged_raised[0][0], checker.privileged_raised[0][1],
+                                  checker.result, [s[1:] for s in arena.struck]))
     # ---- nothing of the activities happens after the consumer has left ----
     owned = {'act%d' % number for number, act in enumerate(acts) if act.get('owned')}
     if checker.finished is not None:
